@@ -55,7 +55,7 @@ def case_rigid(kind, rot_idx, origin_idx):
         om_lab = Q.T @ body.omega_collection[:, 0]
         want = body.velocity_collection + np.cross(om_lab, (X - body.position_collection).T).T
         dev = np.abs(Vm - want)[:d]
-        if dev.max() > 1e-13:
+        if not dev.max() <= 1e-13:
             m = int(np.argmax(dev.max(0)))
             fails.append(Fail(f"{tag}:velocity", "marker velocity != V + Omega x (x_marker - X) with Omega the lab-frame angular velocity", marker=m, got=Vm[:, m].tolist(), want=want[:, m].tolist(), rot=rot_idx, basis=bi))
         # pose advance with PyElastica's own kinematic update
@@ -163,7 +163,7 @@ def case_rod(kind, n_elems, taper, bent, rot_idx, density, seed):
                 rr[2] = 0
             want = v_el[:, owner] + np.cross(om_lab[:, owner].T, rr.T).T
         dev = np.abs(Vm - want)[:d]
-        if dev.max() > 1e-13:
+        if not dev.max() <= 1e-13:
             m = int(np.argmax(dev.max(0)))
             fails.append(Fail(f"{tag}:velocity", "marker does not move rigidly with the cross-section of its element (v_elem + Omega_lab x offset)", marker=m, got=Vm[:d, m].tolist(), want=want[:d, m].tolist(), state=label, n_elems=n_elems, rot=rot_idx))
     for node in range(n_elems + 1):
